@@ -134,8 +134,16 @@ def hideEv (names : List Bytes) (e : Env) : Env :=
     | true, .list l => (k, .list (l.filter fun r => match r with | .list (.bytes n :: _) => !names.contains n | _ => true))
     | _, _ => (k, v)
 
+/-- the intrinsics of the round-2 probes (harness/cmd/zvh/trans_probe.go: `probeRec.note`, `.done`, function values
+    `k ↦ fun x => k*x + 1`); arguments stay small, so no wrap-around is involved -/
+def probeExt : String → List Val → Option (List Val)
+  | "probe.note", [.int x] => some [.int (x + 1)]
+  | "probe.done", [] => some []
+  | "ProbeFn", [.int k, .int x] => some [.int (k * x + 1)]
+  | _, _ => none
+
 def tables : List (String × (Env → Ctx)) := [
-  ("TransProbe", fun _ => { ext := fun _ _ => none, funs := ZapVerif.Gen.TransProbe.funs }),
+  ("TransProbe", fun _ => { ext := probeExt, funs := ZapVerif.Gen.TransProbe.funs }),
   ("TransJsonSep", fun _ => ZapVerif.TransJsonSep.X),
   ("TransSampler", fun e => ZapVerif.TransSampler.X (enabledOf e)),
   ("TransMultiWS", fun _ => ZapVerif.TransMultiWS.X),
